@@ -811,8 +811,10 @@ def _check(case, ctx):
                 for j in range(first):
                     ro = ref['P'][(nm, 'f%d' % j)]
                     if offs[j] not in (ro, UNKNOWN_OFFSET):
-                        raise _v(('comp', i), '%s-field-offset:before-unknown-member' % c['kind'],
-                                        '%s: gcc puts f%d at %d whatever follows, typelib says %d' % (_describe(case, i), j, ro, offs[j]))
+                        if i in wide_comp and ctx.known('enum-storage:needs-64-bit'):
+                            break
+                        raise _v(('comp', i), 'enum-storage:needs-64-bit' if i in wide_comp else '%s-field-offset:before-unknown-member' % c['kind'],
+                                 '%s: gcc puts f%d at %d whatever follows, typelib says %d' % (_describe(case, i), j, ro, offs[j]))
                 for j in range(first, len(offs)):
                     if offs[j] != UNKNOWN_OFFSET:
                         stated.append('f%d at %d' % (j, offs[j]))
